@@ -45,8 +45,53 @@
                                    (c + scan(cts.skip(data_cursor as int), (count - c) as nat).1) as nat),
         reader.view() == cts.subrange(data_cursor as int, file.pos() as int), file.pos() <= cts.len(), f0 <= data_cursor,
         msg_count == last_index.log_index - start_index, msg_count + count < 0x1_0000_0000_0000,
-@@ LogInnerManager::read_indexs attrs
-#[verifier::exec_allows_no_decreases_clause]
+@@ LogInnerManager::read_indexs spec
+    requires 10 <= index_buf@.len() < 0x1_0000, index_interval < 0x1_0000,
+        first_index.log_index < 0x1_0000_0000_0000, first_index.file_index < 0x8000_0000,
+        // index area written by the store: every varint in it is below 2^32
+        forall|off: int| 0 <= off < index_buf@.len() ==> #[trigger] idx_val_ok(index_buf@, off),
+    // C02: reopening rebuilds exactly the index the area encodes: entry j = entry j-1 + (interval, delta_j), up to the first zero delta
+    ensures r is Ok ==> ({
+            let d = dec_from(index_buf@, 0, read_at(index_buf@, 0), index_buf@.len() - 10);
+            r.unwrap().0@ == idx_build(first_index, index_interval as int, d) && r.unwrap().1 == deltas_bytes(d)
+        }),
+@@ LogInnerManager::read_indexs entry
+    let ghost s = index_buf@;
+    let ghost le = s.len() - 10;
+    let ghost mut consumed: Seq<nat> = Seq::empty();
+    let ghost first = first_index;
+    proof { assert(s.skip(0) =~= s); assert(idx_val_ok(s, 0)); }
+@@ LogInnerManager::read_indexs loop 1
+    invariant_except_break
+        dec_from(s, 0, read_at(s, 0), le) == consumed.add(dec_from(s, offset as int, next_index as nat, le)),
+        offset <= le, next_index == read_at(s, offset as int),
+    invariant
+        s == index_buf@, le == s.len() - 10, last_end == le, 10 <= s.len() < 0x1_0000, index_interval < 0x1_0000,
+        forall|off: int| 0 <= off < s.len() ==> #[trigger] idx_val_ok(s, off),
+        next_index < 0x1_0000_0000,
+        indexs@ == idx_build(first, index_interval as int, consumed), consumed.len() <= offset, offset == deltas_bytes(consumed), offset <= s.len(),
+        indexs@.len() == consumed.len() + 1,
+        last_log_index == indexs@.last().log_index, last_file_index == indexs@.last().file_index,
+        last_log_index <= first.log_index + consumed.len() * 0x1_0000, last_file_index <= first.file_index + consumed.len() * 0x1_0000_0000,
+        first.log_index < 0x1_0000_0000_0000, first.file_index < 0x8000_0000,
+    ensures
+        dec_from(s, 0, read_at(s, 0), le) == consumed,
+    decreases s.len() - offset
+@@ LogInnerManager::read_indexs loop 1 body_entry
+    let ghost c0 = consumed;
+    let ghost off0 = offset as int;
+    proof {
+        lemma_enc_len_table(next_index as nat);
+        consumed = consumed.push(next_index as nat);
+        assert(consumed.drop_last() =~= c0);
+        lemma_idx_build_len(first, index_interval as int, c0);
+    }
+@@ LogInnerManager::read_indexs loop 1 body_exit
+    proof {
+        assert(idx_val_ok(s, offset as int));
+        assert(c0.add(seq![c0.len() as nat * 0 + consumed.last()]) =~= consumed);
+        assert(c0.add(seq![consumed.last()].add(dec_from(s, offset as int, next_index as nat, le))) =~= consumed.add(dec_from(s, offset as int, next_index as nat, le)));
+    }
 @@ LogInnerManager::move_to_index_by_count loop 1 body_entry
     let ghost v_in = reader.view();
     let ghost p_in = file.pos() as int;
@@ -107,3 +152,78 @@
         assert(r[0] == reader.view()[0]);
         assert(first_rec(r) is None);
     }
+@@ LogInnerManager::get_file_index_by_log_index foriter 1 it
+@@ LogInnerManager::get_file_index_by_log_index spec
+    requires idx_wf(self.indexs@, self.header.index_interval as int), self.indexs@.len() < 0x1000,
+    ensures r is Ok ==> ({
+            let ix = self.indexs@;
+            let (item, bytes, pops) = r.unwrap();
+            exists|p: int| 0 <= p < ix.len() && item == #[trigger] ix[p]
+                // C03: the greatest index entry at or below the cut
+                && ix[p].log_index <= log_index && (p + 1 < ix.len() ==> ix[p + 1].log_index > log_index)
+                // the entries behind it are popped ...
+                && pops == ix.len() - 1 - p
+                // ... and the index cursor is rewound by exactly the bytes those entries occupy in the index area
+                && bytes == idx_bytes_after(ix, p)
+        }),
+        // a cut at or above the first entry always finds one
+        log_index >= self.indexs@[0].log_index ==> r is Ok,
+@@ LogInnerManager::get_file_index_by_log_index entry
+    let ghost ix = self.indexs@;
+    let ghost n = ix.len() as int;
+@@ LogInnerManager::get_file_index_by_log_index loop 1
+    invariant
+        ix == self.indexs@, n == ix.len(), 1 <= n < 0x1000, idx_wf(ix, self.header.index_interval as int),
+        it.seq().len() == n,
+        forall|i: int| 0 <= i < n ==> *it.seq()[i] == ix[n - 1 - i],
+        // entries visited so far are above the cut
+        forall|j: int| n - it.index@ <= j < n ==> #[trigger] ix[j].log_index > log_index,
+        // last_index is the entry visited last (the last entry before the first iteration)
+        *last_index == ix[if it.index@ == 0 { n - 1 } else { n - it.index@ }],
+        pop_index_count == (if it.index@ == 0 { 0int } else { it.index@ - 1 }),
+        file_index_len == idx_bytes_after(ix, if it.index@ == 0 { n - 1 } else { n - it.index@ }),
+@@ LogInnerManager::get_file_index_by_log_index loop 1 body_entry
+    proof {
+        let p = n - 1 - it.index@;
+        if p + 1 < n {
+            lemma_idx_bytes_step(ix, p);
+            lemma_enc_len_table((ix[p + 1].file_index - ix[p].file_index) as nat);
+        }
+        lemma_idx_bytes_bound(ix, p);
+        if p + 1 < n { lemma_idx_bytes_bound(ix, p + 1); }
+    }
+@@ LogInnerManager::get_file_index_by_log_index before_tail
+    proof {
+        // the loop visited every entry: all of them are above the cut
+        assert(ix[0].log_index > log_index);
+    }
+@@ LogInnerManager::move_to_end spec
+    requires
+        last_index.log_index >= start_index,
+        last_index.file_index <= old(file).contents().len(),
+        old(file).contents().len() < 0x2000_0000,
+        last_index.log_index - start_index < 0x1_0000_0000_0000 - 0xffff,
+        ok_stream(old(file).contents().skip(last_index.file_index as int)),
+        terminated(old(file).contents().skip(last_index.file_index as int)),
+    ensures
+        final(file).contents() == old(file).contents(),
+        // C02: reopening finds the end of the log exactly at the first zero length after the last index entry
+        r is Ok ==> ({
+            let sc = scan(old(file).contents().skip(last_index.file_index as int), 0xffff);
+            r.unwrap().0 == last_index.file_index + sc.0 && r.unwrap().1 == last_index.log_index - start_index + sc.1
+        }),
+@@ LogInnerManager::get_end_index spec
+    requires self.start_index + self.msg_count <= u64::MAX
+    ensures r == self.start_index + self.msg_count
+@@ LogInnerManager::get_last_term spec
+    ensures r == self.last_term
+@@ LogInnerManager::get_last_index_info spec
+    requires self.start_index + self.msg_count <= u64::MAX
+    // C02: the last log index is the index of the last acknowledged entry (0 for an empty log starting at 0), with its term
+    ensures r.term == self.last_term,
+        r.index == (if self.start_index + self.msg_count == 0 { 0int } else { self.start_index + self.msg_count - 1 }),
+@@ LogInnerManager::get_start_index spec
+    requires idx_wf(self.indexs@, self.header.index_interval as int)
+    // greatest index entry at or below `start` (the first entry if none) — assumed (closure-based binary_search_by_key is outside Verus)
+    ensures exists|p: int| 0 <= p < self.indexs@.len() && *r == #[trigger] self.indexs@[p]
+        && (self.indexs@[p].log_index <= start || p == 0) && (p + 1 < self.indexs@.len() ==> self.indexs@[p + 1].log_index > start),
